@@ -14,6 +14,9 @@ import time
 
 VERIF = os.path.normpath(os.path.join(os.path.dirname(os.path.abspath(__file__)), ".."))
 PY = "/venv/bin/python"
+# a private pair (repo worktree, verif copy) may be given so that several changes are evaluated at once
+REPO = os.environ.get("PYMODES_REPO", "/repo")
+RUN_VERIF = os.environ.get("VERIF_RUN_DIR", VERIF)
 
 
 def sh(cmd, cwd=None, env=None, timeout=3600):
@@ -55,14 +58,14 @@ def main():
     sh(["git", "-C", wt, "clean", "-fdq", "src", "tests"])
     # ---- run the check against it
     if res.get("confirmed"):
-        rc, o = sh(["git", "-C", "/repo", "status", "--short"])
+        rc, o = sh(["git", "-C", REPO, "status", "--short"])
         if o.strip():
             print("refusing: /repo is not clean:\n" + o)
             return 2
-        rc, o = sh(["git", "-C", "/repo", "apply", patch])
+        rc, o = sh(["git", "-C", REPO, "apply", patch])
         try:
             t0 = time.time()
-            rc_c, o_c = sh([os.path.join(VERIF, "check"), prop, "--tier", tier], cwd=VERIF, timeout=3600)
+            rc_c, o_c = sh([os.path.join(RUN_VERIF, "check"), prop, "--tier", tier], cwd=RUN_VERIF, timeout=3600)
             res["check_cmd"] = "./check %s --tier %s" % (prop, tier)
             res["check_exit"] = rc_c
             res["check_wall_s"] = round(time.time() - t0, 1)
@@ -74,7 +77,7 @@ def main():
             for l in lines:
                 if l.startswith("VIOLATION") and "replay=" in l:
                     rp = l.split("replay=")[1].split()[0]
-                    src = os.path.join(VERIF, rp)
+                    src = os.path.join(RUN_VERIF, rp)
                     if os.path.exists(src):
                         try:
                             r = json.load(open(src))
@@ -82,9 +85,9 @@ def main():
                         except Exception:
                             pass
         finally:
-            sh(["git", "-C", "/repo", "checkout", "--", "."])
-            sh(["git", "-C", "/repo", "clean", "-fdq", "src", "tests"])
-        rc, o = sh(["git", "-C", "/repo", "status", "--short"])
+            sh(["git", "-C", REPO, "checkout", "--", "."])
+            sh(["git", "-C", REPO, "clean", "-fdq", "src", "tests"])
+        rc, o = sh(["git", "-C", REPO, "status", "--short"])
         assert not o.strip(), "repo not restored: " + o
     dst = os.path.join(VERIF, "seeded", mid)
     os.makedirs(dst, exist_ok=True)
